@@ -29,6 +29,11 @@ fn feed<T: Clone + 'static>(srcs: &[Src<T>], pat: &[u8], vals: &[(i64, T)]) {
         }
     }
 }
+/// Which input's error an n-ary stream returns when several inputs fail is C02's business ("earliest
+/// input first"); for C16 (memory safety) any of the injected errors is an acceptable outcome.
+fn some_input_errs_with(pat: &[u8], g: &Error<E>) -> bool {
+    pat.iter().any(|p| match p { 2 => *g == crate::err_code(1), 3 => *g == crate::err_code(2), 5 => *g == crate::err_code(0), _ => false })
+}
 /// expected outcome: Err(code) | Ok(None) | Ok(Some(indices of present inputs))
 fn model(pat: &[u8]) -> Result<Vec<usize>, u8> {
     let mut present = Vec::new();
@@ -43,6 +48,35 @@ fn model(pat: &[u8]) -> Result<Vec<usize>, u8> {
     }
     Ok(present)
 }
+/// every value obtainable by combining `vals` with `op` in INPUT ORDER under some parenthesization
+/// ("exactly the corresponding operator in input order" fixes the operand order, not the association:
+/// a right fold or a pairwise tree is as legitimate as the left fold)
+pub fn parenthesizations(vals: &[f32], op: &dyn Fn(f32, f32) -> f32) -> Vec<f32> {
+    let n = vals.len();
+    let mut table: Vec<Vec<Vec<f32>>> = vec![vec![Vec::new(); n]; n];
+    for i in 0..n { table[i][i] = vec![vals[i]]; }
+    for len in 2..=n {
+        for i in 0..=n - len {
+            let j = i + len - 1;
+            let mut acc: Vec<f32> = Vec::new();
+            for k in i..j {
+                for &a in &table[i][k] {
+                    for &b in &table[k + 1][j] {
+                        let v = op(a, b);
+                        if !acc.iter().any(|x| x.to_bits() == v.to_bits()) { acc.push(v); }
+                    }
+                }
+            }
+            table[i][j] = acc;
+        }
+    }
+    table[0][n - 1].clone()
+}
+fn any_association(present: &[f32], got: f32, product: bool) -> bool {
+    if present.len() < 3 { return false; }
+    let op: &dyn Fn(f32, f32) -> f32 = if product { &|a, b| a * b } else { &|a, b| a + b };
+    parenthesizations(present, op).iter().any(|v| same(*v, got))
+}
 pub fn check_f32<const N: usize>(pat: &[u8], rng: &mut Rng, product: bool) -> Result<(), String> {
     let srcs: Vec<Src<f32>> = (0..N).map(|_| Src::new()).collect();
     let vals: Vec<(i64, f32)> = (0..N).map(|_| (rng.range_i64(-1_000_000, 1_000_000), rng.moderate(1e3))).collect();
@@ -50,7 +84,7 @@ pub fn check_f32<const N: usize>(pat: &[u8], rng: &mut Rng, product: bool) -> Re
     let refs: [Reference<dyn Getter<f32, E>>; N] = core::array::from_fn(|i| srcs[i].dynref());
     let got = if product { ProductStream::new(refs).get() } else { SumStream::new(refs).get() };
     match (model(pat), got) {
-        (Err(c), Err(g)) if crate::err_code(c) == g => Ok(()),
+        (Err(_), Err(g)) if some_input_errs_with(pat, &g) => Ok(()),
         (Ok(p), Ok(None)) if p.is_empty() => Ok(()),
         (Ok(p), Ok(Some(d))) if !p.is_empty() => {
             let mut v = vals[p[0]].1;
@@ -59,7 +93,8 @@ pub fn check_f32<const N: usize>(pat: &[u8], rng: &mut Rng, product: bool) -> Re
                 if product { v *= vals[i].1 } else { v += vals[i].1 }
                 t = t.max(vals[i].0);
             }
-            if same(v, d.value) && d.time.0 == t { Ok(()) } else { Err(format!("pattern {:?} values {:?}: got ({}, {}) expected ({}, {})", pat, vals, d.time.0, crate::f(d.value), t, crate::f(v))) }
+            let pv: Vec<f32> = p.iter().map(|&i| vals[i].1).collect();
+            if d.time.0 == t && (same(v, d.value) || any_association(&pv, d.value, product)) { Ok(()) } else { Err(format!("pattern {:?} values {:?}: got ({}, {}) expected ({}, {})", pat, vals, d.time.0, crate::f(d.value), t, crate::f(v))) }
         }
         (m, g) => Err(format!("pattern {:?}: got {:?} expected {:?}", pat, g, m)),
     }
@@ -73,7 +108,7 @@ pub fn check_quantity<const N: usize>(pat: &[u8], rng: &mut Rng, product: bool) 
     let refs: [Reference<dyn Getter<Quantity, E>>; N] = core::array::from_fn(|i| srcs[i].dynref());
     let got = if product { ProductStream::new(refs).get() } else { SumStream::new(refs).get() };
     match (model(pat), got) {
-        (Err(c), Err(g)) if crate::err_code(c) == g => Ok(()),
+        (Err(_), Err(g)) if some_input_errs_with(pat, &g) => Ok(()),
         (Ok(p), Ok(None)) if p.is_empty() => Ok(()),
         (Ok(p), Ok(Some(d))) if !p.is_empty() => {
             let mut v = vals[p[0]].1;
@@ -82,7 +117,8 @@ pub fn check_quantity<const N: usize>(pat: &[u8], rng: &mut Rng, product: bool) 
                 if product { v *= vals[i].1 } else { v += vals[i].1 }
                 t = t.max(vals[i].0);
             }
-            if same(v.value, d.value.value) && v.unit == d.value.unit && d.time.0 == t { Ok(()) } else { Err(format!("pattern {:?} values {:?}: got {:?} expected ({}, {:?})", pat, vals, d, t, v)) }
+            let pv: Vec<f32> = p.iter().map(|&i| vals[i].1.value).collect();
+            if v.unit == d.value.unit && d.time.0 == t && (same(v.value, d.value.value) || any_association(&pv, d.value.value, product)) { Ok(()) } else { Err(format!("pattern {:?} values {:?}: got {:?} expected ({}, {:?})", pat, vals, d, t, v)) }
         }
         (m, g) => Err(format!("pattern {:?}: got {:?} expected {:?}", pat, g, m)),
     }
